@@ -558,7 +558,7 @@ def c03_programs(backend, tier):
             add(f"ResultTTree(Select(EventDataset('ds'), lambda e: {body}), {nm}, 'tt', 'f.root')",
                 tags=() if n == m else ("must_raise",))
     # tree names with characters that mean something to ROOT / a file system: booked = filled = descriptor, character for character
-    for tn in ("analysis/jets", "run2/2018/jets", "a.b", "my tree", "t-1", "jets;1", "/lead"):
+    for tn in ("analysis/jets", "run2/2018/jets", "a.b", "my tree", "t-1", "jets;1", "/lead", "", " ", "  t  "):
         add(f"ResultTTree(Select(EventDataset('ds'), lambda e: (e.PRIM('A').Select(lambda j: j.pt()), e.PRIM('A').Count())), ('pt', 'n'), {tn!r}, 'f.root')", tags=("treename",))
         add(f"ResultTTree(Select(SelectMany(EventDataset('ds'), lambda e: e.PRIM('A')), lambda j: j.pt()), 'pt', {tn!r}, 'f.root')", tags=("treename",))
     # declared tree types (shared with C10)
